@@ -279,24 +279,28 @@ def main():
             if len(v) > l and rel.encode() not in ob["stderr"]:
                 ck.violation("write of %s failed under a %d-byte limit but stderr does not name it" % (rel, l), rep)
 
-    # ---------------- (B2) the temporary file cannot be created (name too long) AND writes are cut short:
-    # the target must keep its original bytes (no fallback to writing in place)
+    # ---------------- (B2) a file whose name is close to NAME_MAX (the temporary file's name must not depend on it: fix 76a8c7e),
+    # with and without writes that are cut short: every Go file holds its original or its complete new content
     longname = "l/" + "x" * 245 + ".go"
     files2 = {"a/f.go": big_src(0, N), longname: big_src(1, N), "z/f.go": big_src(2, N)}
     news2 = {"a/f.go": big_new(0, N), longname: big_new(1, N), "z/f.go": big_new(2, N)}
     lim2 = [0, 512, 1024, 4096, len(news2[longname]) - 1, 1 << 20] + (list(range(0, len(news2[longname]) + 200, 211)) if thorough else [])
     lim2_scs = [(Scenario(PATCHES[:1], files2, {}, name="longname fsize=%d" % l), l) for l in sorted(set(lim2))]
     for (sc, l), ob in zip(lim2_scs, vlib.pmap(lambda x: run_limited(*x), lim2_scs)):
-        ck.count(("fsize-longname", l)); ck.tally("phase", "fsize-limit + temp name too long")
+        ck.count(("fsize-longname", l)); ck.tally("phase", "fsize-limit + file name close to NAME_MAX")
         rep = dict(name=sc.name, limit=l, rc=ob["rc"], stderr=ob["stderr"].decode("utf-8", "replace")[:1000], sizes={k[:20]: len(v) for k, v in news2.items()})
         bad = go_files_state(ob, news2)
         if bad:
-            ck.violation("temporary file cannot be created (name too long) and writes are limited to %d bytes: a Go file is neither original nor complete: %s"
+            ck.violation("a file name of 248 bytes and writes limited to %d bytes: a Go file is neither original nor complete: %s"
                          % (l, [(b[0][:24],) + tuple(b[1:]) for b in bad]), rep)
-        if ob["rc"] == 0:
-            ck.violation("a file could not be written (temporary name too long) but the exit status is 0", rep)
-        if b"xxxxxxxx" not in ob["stderr"]:
-            ck.violation("a file could not be written (temporary name too long) but stderr does not name it: %r" % ob["stderr"][:200], rep)
+        should_fail = any(len(v) > l for v in news2.values())
+        if should_fail and ob["rc"] == 0:
+            ck.violation("a write failed under a %d-byte limit but the exit status is 0" % l, rep)
+        if not should_fail and (ob["rc"] != 0 or any(ob["after"].get(rel, (None, None))[1] != v for rel, v in news2.items())):
+            ck.violation("a file whose name is 248 bytes long cannot be rewritten in place (exit %d): %s" % (ob["rc"], ob["stderr"].decode("utf-8", "replace")[:160]), rep)
+        for rel, v in news2.items():
+            if len(v) > l and rel.encode()[:40] not in ob["stderr"]:
+                ck.violation("write of %s... failed under a %d-byte limit but stderr does not name it" % (rel[:24], l), rep)
 
     # ---------------- (C) system-call traces: conformance with the protocol + safety of every prefix (in the model)
     injections = [None, "write:error=ENOSPC:when=1", "write:error=ENOSPC:when=2", "write:error=EIO:when=3",
